@@ -65,6 +65,7 @@ type batchScn struct {
 	fast    []int      // items whose exec does not take execDur (they finish while the others are still running)
 	stagger bool       // item i takes (i+1)*execDur
 	unwrap  bool       // hand flyt the *BatchNode inside the builder instead of the builder
+	nByRun  []int      // item count of each run (repeated runs of one node object); default n
 	cancel  cancelSpec // cancellation injection
 	// oracle groups
 	chkPositional, chkPerItem, chkLimit, chkStop, chkCancel, chkAction, chkWait bool
@@ -210,7 +211,14 @@ func (sc *batchScn) scenario() Scenario {
 		}
 		stop, c := sc.stop, sc.c
 		for r := 0; r < runs; r++ {
-			b = &BR{sc: sc, h: h, runIdx: r, payload: sc.payloads(), it: make([]itemState, sc.n), afterCancel: map[int]int{}}
+			scr := sc
+			if r < len(sc.nByRun) {
+				// this run of the same node object has its own number of items
+				cp := *sc
+				cp.n = sc.nByRun[r]
+				scr = &cp
+			}
+			b = &BR{sc: scr, h: h, runIdx: r, payload: scr.payloads(), it: make([]itemState, scr.n), afterCancel: map[int]int{}}
 			h.cur = b
 			if r > 0 && sc.reconf != nil {
 				stop, c = sc.reconf(h.nb, r)
@@ -346,7 +354,7 @@ func (b *BR) buildNode() (*flyt.BatchNodeBuilder, *flyt.SharedStore) {
 	}
 	store := flyt.NewSharedStore()
 	prepItems := func() []flyt.Result {
-		r := make([]flyt.Result, sc.n)
+		r := make([]flyt.Result, len(h.cur.payload))
 		for i, p := range h.cur.payload {
 			r[i] = flyt.NewResult(p)
 			if contains(sc.errItems, i) {
@@ -376,13 +384,13 @@ func (b *BR) buildNode() (*flyt.BatchNodeBuilder, *flyt.SharedStore) {
 			case shAny:
 				return append([]any(nil), h.cur.payload...), nil
 			case shInts:
-				l := make([]int, sc.n)
+				l := make([]int, len(h.cur.payload))
 				for i, p := range h.cur.payload {
 					l[i] = p.(int)
 				}
 				return l, nil
 			case shStructs:
-				l := make([]itemT, sc.n)
+				l := make([]itemT, len(h.cur.payload))
 				for i, p := range h.cur.payload {
 					l[i] = p.(itemT)
 				}
